@@ -1,3 +1,4 @@
+import math
 import torch
 from torch.nn import functional as F
 
@@ -155,9 +156,13 @@ def quadratic_spline(
             (alpha * (input_right_heights - input_left_heights) + input_left_heights)
         )
 
+    # The spline itself maps [0, 1] to [0, 1]; account for the scaling of the two boxes.
+    log_box_scale = math.log(top - bottom) - math.log(right - left)
     if inverse:
         outputs = outputs * (right - left) + left
+        logabsdet = logabsdet - log_box_scale
     else:
         outputs = outputs * (top - bottom) + bottom
+        logabsdet = logabsdet + log_box_scale
 
     return outputs, logabsdet
